@@ -267,37 +267,38 @@ func substring(context Context, args ...Result) (Result, error) {
 		return nil, errBadArgs
 	}
 
-	str := args[0].String()
-	begin := getRound(args[1].Number())
+	str := []rune(args[0].String())
+	first := getRound(args[1].Number())
+	last := math.Inf(1)
 
-	if float64(begin-1) >= float64(len(str)) || math.IsNaN(float64(begin)) {
+	if len(args) == 3 {
+		last = first + getRound(args[2].Number())
+	}
+
+	if math.IsNaN(first) || math.IsNaN(last) {
 		return String(""), nil
 	}
 
-	if len(args) == 2 {
-		if begin <= 1 {
-			begin = 1
-		}
+	begin := clampIndex(first-1, len(str))
+	end := clampIndex(last-1, len(str))
 
-		return String(str[int(begin)-1:]), nil
-	}
-
-	end := getRound(args[2].Number())
-
-	if end <= 0 || math.IsNaN(float64(end)) || (math.IsInf(float64(begin), 0) && math.IsInf(float64(end), 0)) {
+	if begin >= end {
 		return String(""), nil
 	}
 
-	if begin <= 1 {
-		end = begin + end - 1
-		begin = 1
+	return String(str[begin:end]), nil
+}
+
+func clampIndex(f float64, n int) int {
+	if math.IsNaN(f) || f < 0 {
+		return 0
 	}
 
-	if float64(begin+end-1) >= float64(len(str)) {
-		end = float64(len(str)) - begin + 1
+	if f > float64(n) {
+		return n
 	}
 
-	return String(str[int(begin)-1 : int(begin+end)-1]), nil
+	return int(f)
 }
 
 func stringLength0(context Context, args ...Result) (Result, error) {
